@@ -61,6 +61,8 @@ def run(chk):
         cases.append(p)
 
     def oracle(c, r):
+        if r[0] == "edit-leaked":
+            return "after loading the written manifest, editing the image %r changed the images listed under %r" % (r[1], r[2])
         if r[0] != "ok":
             if c.get("probe"):
                 return None
